@@ -2,6 +2,11 @@
    Print Assumptions.  The driver parses this file's output. *)
 From ZV.Common Require Import Base.
 From ZV.C02 Require Import Model ModelRec RunCase ProofsBits ProofsMatch ProofsSeq ProofsFrame ProofsRec.
+From ZV.C02 Require Import ModelComp RunCaseX ProofsComp ProofsHuffC ModelFront ProofsFront ProofsHybridC.
+From ZV.C02 Require Import ModelSimd RunCaseS ProofsSimdSeq ProofsSimdCopy ProofsSimdFast ProofsSimd.
+From ZV.C02 Require Import ModelPaZip RunCaseP ProofsPaZip ProofsPaZipBlocks ProofsPaZipEx.
+From ZV.C01 Require ProofsHeap.
+From Coq Require Import Permutation.
 Open Scope N_scope.
 
 (* BitWriter::write_bits appends the low `bits` bits of the value to the stream (a little-endian
@@ -171,6 +176,634 @@ Check far1short_old_reader_refuted :
     decompress_match [] 4 (le16 d ++ [l] ++ tail) out.
 Print Assumptions far1short_old_reader_refuted.
 
+(* ---------------------------------------------------------------------------------------------
+   Compressors end to end (ModelComp.v over the coder models of coq/C01)
+   --------------------------------------------------------------------------------------------- *)
+(* RansCompressor: header = 256 x u32 counts (the counts `new` made) | u32 original size | rANS bytes.
+   Trained on any non-empty corpus of fewer than 2^32 bytes (every u32 count exact), every payload of at most
+   MAX_DECOMPRESSED_SIZE bytes over the corpus' symbols is compressed, and the frame is decoded by the same instance
+   and by an instance trained on any other corpus. *)
+Theorem rans_compressor_roundtrip :
+  forall train other x,
+    train <> [] -> nlen train < W32 -> other <> [] -> nlen other < W32 ->
+    Forall (fun b => b < 256) x -> (forall s, In s x -> In s train) ->
+    nlen x <= L.MAX_DECOMPRESSED_SIZE ->
+    exists c1 c2 z, rans_new train = Some c1 /\ rans_new other = Some c2 /\
+      rans_compress c1 x = Some z /\ rans_decompress c1 z = Some x /\ rans_decompress c2 z = Some x.
+Proof. exact rans_compressor_roundtrip_proof. Qed.
+Check rans_compressor_roundtrip :
+  forall train other x,
+    train <> [] -> nlen train < W32 -> other <> [] -> nlen other < W32 ->
+    Forall (fun b => b < 256) x -> (forall s, In s x -> In s train) ->
+    nlen x <= L.MAX_DECOMPRESSED_SIZE ->
+    exists c1 c2 z, rans_new train = Some c1 /\ rans_new other = Some c2 /\
+      rans_compress c1 x = Some z /\ rans_decompress c1 z = Some x /\ rans_decompress c2 z = Some x.
+Print Assumptions rans_compressor_roundtrip.
+
+(* the frame alone, for any instance holding 256 counts below 2^32 and their table *)
+Theorem rans_frame_roundtrip :
+  forall c x z, length (rc_counts c) = 256%nat -> Forall (fun v => v < W32) (rc_counts c) ->
+    rans_encoder_new (rc_counts c) = Some (rc_table c) -> nlen x <= L.MAX_DECOMPRESSED_SIZE ->
+    rans_compress c x = Some z -> forall c', rans_decompress c' z = Some x.
+Proof. exact ProofsComp.rans_frame_roundtrip. Qed.
+Check rans_frame_roundtrip :
+  forall c x z, length (rc_counts c) = 256%nat -> Forall (fun v => v < W32) (rc_counts c) ->
+    rans_encoder_new (rc_counts c) = Some (rc_table c) -> nlen x <= L.MAX_DECOMPRESSED_SIZE ->
+    rans_compress c x = Some z -> forall c', rans_decompress c' z = Some x.
+Print Assumptions rans_frame_roundtrip.
+
+(* counts stored as saturating u16 (a narrower layout): the decoder rebuilds another table than the encoder used *)
+Theorem rans_counts_u16_refuted :
+  exists raw, length raw = 256%nat /\ Forall (fun v => v < W32) raw /\
+    rans_encoder_new (map (fun c => N.min c 65535) raw) <> rans_encoder_new raw.
+Proof. exact rans_counts_u16_refuted_proof. Qed.
+Check rans_counts_u16_refuted :
+  exists raw, length raw = 256%nat /\ Forall (fun v => v < W32) raw /\
+    rans_encoder_new (map (fun c => N.min c 65535) raw) <> rans_encoder_new raw.
+Print Assumptions rans_counts_u16_refuted.
+
+(* DictCompressor: no header; the token stream of DictionaryCompressor (min 3 / max 258) decodes to the payload on
+   every instance, for every payload of at most MAX_DECOMPRESSED_SIZE bytes *)
+Theorem dict_compressor_roundtrip :
+  forall train other x, train <> [] -> other <> [] -> nlen x <= L.MAX_DECOMPRESSED_SIZE ->
+  exists c1 c2 z, dict_new train = Some c1 /\ dict_new other = Some c2 /\
+    dict_compress c1 x = Some z /\ dict_decompress c1 z = Some x /\ dict_decompress c2 z = Some x.
+Proof. exact dict_compressor_roundtrip_proof. Qed.
+Check dict_compressor_roundtrip :
+  forall train other x, train <> [] -> other <> [] -> nlen x <= L.MAX_DECOMPRESSED_SIZE ->
+  exists c1 c2 z, dict_new train = Some c1 /\ dict_new other = Some c2 /\
+    dict_compress c1 x = Some z /\ dict_decompress c1 z = Some x /\ dict_decompress c2 z = Some x.
+Print Assumptions dict_compressor_roundtrip.
+
+(* HuffmanCompressor: header = u32 tree size | serialised code table (u16 entry count; per entry u8 symbol, u8 code
+   length, packed bits) | u32 original size | packed code bits.  For every training corpus (syms = its distinct bytes,
+   heap = whatever tree the BinaryHeap loop built - C01's heap_run), both HashMap iteration orders (serialize and
+   build_decoding_tree_from_codes) and every payload over the corpus' symbols shorter than 2^32 bytes: compress
+   succeeds and every instance decodes the frame. *)
+Theorem huffman_compressor_roundtrip :
+  forall syms heap ord1 ord2 x,
+    (length syms <= 256)%nat -> NoDup syms -> ProofsHeap.heap_run (map H.Leaf syms) heap ->
+    (forall t, Permutation (ord1 t) t) -> (forall t, Permutation (ord2 t) t) ->
+    (forall s, In s x -> In s syms) -> nlen x < W32 ->
+    exists ht z, H.ht_from_heap syms heap = Some ht /\
+      huffc_compress (huff_new_from ord1 ht) x = Some z /\
+      forall other, huffc_decompress ord2 other z = Some x.
+Proof. exact huffman_compressor_roundtrip_proof. Qed.
+Check huffman_compressor_roundtrip :
+  forall syms heap ord1 ord2 x,
+    (length syms <= 256)%nat -> NoDup syms -> ProofsHeap.heap_run (map H.Leaf syms) heap ->
+    (forall t, Permutation (ord1 t) t) -> (forall t, Permutation (ord2 t) t) ->
+    (forall s, In s x -> In s syms) -> nlen x < W32 ->
+    exists ht z, H.ht_from_heap syms heap = Some ht /\
+      huffc_compress (huff_new_from ord1 ht) x = Some z /\
+      forall other, huffc_decompress ord2 other z = Some x.
+Print Assumptions huffman_compressor_roundtrip.
+
+(* HuffmanTree::deserialize(serialize(table)) for any table with distinct keys and prefix-free codes shorter than 256
+   bits, in whatever order the two HashMaps are iterated: the same table and a decoding tree that agrees with it *)
+Theorem huffman_tree_serialize_roundtrip :
+  forall ord2 tb, (forall t, Permutation (ord2 t) t) ->
+  NoDup (map fst tb) -> (length tb <= 256)%nat -> tb <> [] -> H.prefix_free tb = true -> short_codes tb ->
+  exists t, deser_tree ord2 (ser_table tb) = Some (H.mkHT (Some t) tb) /\ H.wf_ht (H.mkHT (Some t) tb) = true.
+Proof. exact deser_ser_tree. Qed.
+Check huffman_tree_serialize_roundtrip :
+  forall ord2 tb, (forall t, Permutation (ord2 t) t) ->
+  NoDup (map fst tb) -> (length tb <= 256)%nat -> tb <> [] -> H.prefix_free tb = true -> short_codes tb ->
+  exists t, deser_tree ord2 (ser_table tb) = Some (H.mkHT (Some t) tb) /\ H.wf_ht (H.mkHT (Some t) tb) = true.
+Print Assumptions huffman_tree_serialize_roundtrip.
+
+(* the original-size field written through `as u16` (a narrower layout) loses a payload of 64 KiB *)
+Theorem huffman_size_u16_refuted :
+  exists x z, nlen x < W32 /\ huffc_compress_size16 (huff_new_from (fun t => t) ht_a) x = Some z /\
+              huffc_decompress (fun t => t) (huff_new_from (fun t => t) ht_a) z <> Some x.
+Proof. exact huff_size16_refuted_proof. Qed.
+Check huffman_size_u16_refuted :
+  exists x z, nlen x < W32 /\ huffc_compress_size16 (huff_new_from (fun t => t) ht_a) x = Some z /\
+              huffc_decompress (fun t => t) (huff_new_from (fun t => t) ht_a) z <> Some x.
+Print Assumptions huffman_size_u16_refuted.
+
+(* HybridCompressor over its three real components: the component laws that hybrid_roundtrip assumes are discharged by the
+   three theorems above.  Any non-empty training corpus, every payload of at most MAX_DECOMPRESSED_SIZE bytes (also one whose
+   symbols the corpus lacks: the entropy coders then refuse and the dictionary coder or the stored marker wins) *)
+Theorem hybrid_compressor_roundtrip :
+  forall train syms heap ord1 ord2 x,
+    train <> [] -> nlen train < W32 ->
+    (length syms <= 256)%nat -> NoDup syms -> ProofsHeap.heap_run (map H.Leaf syms) heap ->
+    (forall t, Permutation (ord1 t) t) -> (forall t, Permutation (ord2 t) t) ->
+    nlen x <= L.MAX_DECOMPRESSED_SIZE ->
+    exists ht rc cs z,
+      H.ht_from_heap syms heap = Some ht /\ rans_new train = Some rc /\
+      cs = [huff_codec ord2 (huff_new_from ord1 ht); rans_codec rc; dict_codec] /\
+      hybrid_compress cs x = Some z /\ hybrid_decompress cs z = Some x.
+Proof. exact hybrid_compressor_roundtrip_proof. Qed.
+Check hybrid_compressor_roundtrip :
+  forall train syms heap ord1 ord2 x,
+    train <> [] -> nlen train < W32 ->
+    (length syms <= 256)%nat -> NoDup syms -> ProofsHeap.heap_run (map H.Leaf syms) heap ->
+    (forall t, Permutation (ord1 t) t) -> (forall t, Permutation (ord2 t) t) ->
+    nlen x <= L.MAX_DECOMPRESSED_SIZE ->
+    exists ht rc cs z,
+      H.ht_from_heap syms heap = Some ht /\ rans_new train = Some rc /\
+      cs = [huff_codec ord2 (huff_new_from ord1 ht); rans_codec rc; dict_codec] /\
+      hybrid_compress cs x = Some z /\ hybrid_decompress cs z = Some x.
+Print Assumptions hybrid_compressor_roundtrip.
+
+(* ---------------------------------------------------------------------------------------------
+   Front ends as decision automata (ModelFront.v): the clock readings and the cost model are inputs
+   --------------------------------------------------------------------------------------------- *)
+(* RealtimeCompressor: every mode, every current algorithm (any set_mode history), fallback on or off, every clock reading
+   (deadline passed on entry / after the permit / tokio timeout / on time), compress and compress_with_deadline alike:
+   a block that is returned decodes to the payload, given the round-trip law of every component codec *)
+Theorem realtime_block_roundtrip :
+  forall codec_of, (forall a, codec_ok (codec_of a)) ->
+  forall st data ck z,
+    rt_compress_with_deadline codec_of st data ck = Some z -> rt_decompress codec_of st z = Some data.
+Proof. exact realtime_block_roundtrip_proof. Qed.
+Check realtime_block_roundtrip :
+  forall codec_of, (forall a, codec_ok (codec_of a)) ->
+  forall st data ck z,
+    rt_compress_with_deadline codec_of st data ck = Some z -> rt_decompress codec_of st z = Some data.
+Print Assumptions realtime_block_roundtrip.
+
+(* the tag written is the tag of the codec that produced the bytes: STORED with the payload itself (missed deadline, small
+   block in ultra-low-latency configuration), COMPRESSED with the output of the current algorithm *)
+Theorem realtime_tag_names_producer :
+  forall codec_of st data ck z,
+    rt_compress_with_deadline codec_of st data ck = Some z ->
+    exists body, z = tag_of (rt_producer st data ck) :: body /\
+      match rt_producer st data ck with
+      | PStored => body = data
+      | PCodec a => a = rt_alg st /\ c_compress (codec_of a) data = Some body
+      end.
+Proof. exact rt_block_producer. Qed.
+Check realtime_tag_names_producer :
+  forall codec_of st data ck z,
+    rt_compress_with_deadline codec_of st data ck = Some z ->
+    exists body, z = tag_of (rt_producer st data ck) :: body /\
+      match rt_producer st data ck with
+      | PStored => body = data
+      | PCodec a => a = rt_alg st /\ c_compress (codec_of a) data = Some body
+      end.
+Print Assumptions realtime_tag_names_producer.
+
+(* compress_batch: whatever it returns - it stops when the batch deadline passes - block j decodes to item j *)
+Theorem realtime_batch_roundtrip :
+  forall codec_of, (forall a, codec_ok (codec_of a)) ->
+  forall st items cks zs,
+    rt_compress_batch codec_of st items cks = Some zs ->
+    (length zs <= length items)%nat /\
+    forall j z, nth_error zs j = Some z -> exists it, nth_error items j = Some it /\ rt_decompress codec_of st z = Some it.
+Proof. exact realtime_batch_roundtrip_proof. Qed.
+Check realtime_batch_roundtrip :
+  forall codec_of, (forall a, codec_ok (codec_of a)) ->
+  forall st items cks zs,
+    rt_compress_batch codec_of st items cks = Some zs ->
+    (length zs <= length items)%nat /\
+    forall j z, nth_error zs j = Some z -> exists it, nth_error items j = Some it /\ rt_decompress codec_of st z = Some it.
+Print Assumptions realtime_batch_roundtrip.
+
+(* AdaptiveCompressor: after any history of set_algorithm / train / compress / decompress, whatever the cost model picked
+   (and even if maybe_adapt performed the switch it only logs today: `switching`), the next compress never panics, fails
+   only when the current codec refuses the payload, and returns a block the compressor then decodes to the payload *)
+Theorem adaptive_roundtrip :
+  forall codec_of, (forall a, codec_ok (codec_of a)) ->
+  forall creatable switching cfg ops st data pick improves,
+    ad_run codec_of creatable true switching cfg ad_new ops = Some st ->
+    match ad_compress codec_of creatable true switching cfg st data pick improves with
+    | AdOk z st' => ad_decompress codec_of st' z = Some data
+    | AdErr _ => c_compress (codec_of (ad_alg st)) data = None \/ switching = true
+    | AdPanic => False
+    end.
+Proof. exact adaptive_roundtrip_proof. Qed.
+Check adaptive_roundtrip :
+  forall codec_of, (forall a, codec_ok (codec_of a)) ->
+  forall creatable switching cfg ops st data pick improves,
+    ad_run codec_of creatable true switching cfg ad_new ops = Some st ->
+    match ad_compress codec_of creatable true switching cfg st data pick improves with
+    | AdOk z st' => ad_decompress codec_of st' z = Some data
+    | AdErr _ => c_compress (codec_of (ad_alg st)) data = None \/ switching = true
+    | AdPanic => False
+    end.
+Print Assumptions adaptive_roundtrip.
+
+(* ... and no history panics or gets stuck *)
+Theorem adaptive_history_total :
+  forall codec_of creatable switching cfg ops st, exists st', ad_run codec_of creatable true switching cfg st ops = Some st'.
+Proof. exact ad_run_total. Qed.
+Check adaptive_history_total :
+  forall codec_of creatable switching cfg ops st, exists st', ad_run codec_of creatable true switching cfg st ops = Some st'.
+Print Assumptions adaptive_history_total.
+
+(* before the fix: evaluation_interval = 0 made the first compress at or past min_operations panic *)
+Theorem adaptive_zero_interval_refuted :
+  exists cfg data, forall codec_of creatable pick improves,
+    ad_compress codec_of creatable false false cfg ad_new data pick improves = AdPanic.
+Proof. exact adaptive_zero_interval_refuted_proof. Qed.
+Check adaptive_zero_interval_refuted :
+  exists cfg data, forall codec_of creatable pick improves,
+    ad_compress codec_of creatable false false cfg ad_new data pick improves = AdPanic.
+Print Assumptions adaptive_zero_interval_refuted.
+
+(* the limit of the one-byte tag: it says "compressed", not by which algorithm - a block written before set_mode /
+   set_algorithm is handed to the new decoder *)
+Theorem realtime_stale_block_limit :
+  exists st data z mode, (forall a, codec_ok (two_codecs a)) /\
+    rt_compress_with_deadline two_codecs st data on_time = Some z /\
+    rt_decompress two_codecs st z = Some data /\
+    rt_decompress two_codecs (rt_set_mode st mode) z <> Some data.
+Proof. exact realtime_stale_block_proof. Qed.
+Check realtime_stale_block_limit :
+  exists st data z mode, (forall a, codec_ok (two_codecs a)) /\
+    rt_compress_with_deadline two_codecs st data on_time = Some z /\
+    rt_decompress two_codecs st z = Some data /\
+    rt_decompress two_codecs (rt_set_mode st mode) z <> Some data.
+Print Assumptions realtime_stale_block_limit.
+
+(* ---------------------------------------------------------------------------------------------
+   SimdLz77Compressor, inherent compress / decompress (ModelSimd.v): token stream = the PA-Zip bit codec, decode loop with
+   guard has_bits(3), reconstruction with placeholder literals.  The positive theorems say what is right (back-reference
+   copying, kind selection, casts) and isolate the exact conditions under which the format loses data; the refutations are
+   the recorded finding simd_lz77_literals_not_stored and its neighbours (padding bits, early termination).
+   --------------------------------------------------------------------------------------------- *)
+
+(* copy_backward_reference (growing modulus `i % (output.len() - start)`) is the plain overlapping LZ copy: same refusals, same bytes as copy_from_distance, never a panic *)
+Theorem simd_copy_is_lz_copy :
+  forall out d len,
+  simd_copy_backward out d len =
+  match copy_from_distance out d len with Some o => Ok o | None => Err end.
+Proof. exact simd_copy_is_lz_copy_proof. Qed.
+Check simd_copy_is_lz_copy :
+  forall out d len,
+  simd_copy_backward out d len =
+  match copy_from_distance out d len with Some o => Ok o | None => Err end.
+Print Assumptions simd_copy_is_lz_copy.
+
+(* stated directly: for 1 <= d <= |out| the copy appends out[|out| - d + (i mod d)], i < len (the periodic extension) *)
+Theorem simd_copy_periodic :
+  forall out d len, 1 <= d <= nlen out ->
+  simd_copy_backward out d len =
+  Ok (out ++ map (fun i => nth (N.to_nat (nlen out - d + N.of_nat i mod d)) out 0) (seq 0 (N.to_nat len))).
+Proof. exact simd_copy_periodic_proof. Qed.
+Check simd_copy_periodic :
+  forall out d len, 1 <= d <= nlen out ->
+  simd_copy_backward out d len =
+  Ok (out ++ map (fun i => nth (N.to_nat (nlen out - d + N.of_nat i mod d)) out 0) (seq 0 (N.to_nat len))).
+Print Assumptions simd_copy_periodic.
+
+(* SimdLz77's decode loop (guard has_bits(3)) returns every encoded token list whose stream ends with fewer than 3 padding bits *)
+Theorem simd_tokens_roundtrip :
+  forall ms, Forall wt ms ->
+  forall bytes total, encode_matches ms = Some (bytes, total) ->
+  pad_bits total < 3 ->
+  decode_matches_g 3 bytes = Ok (ms, total).
+Proof. exact simd_tokens_roundtrip_proof. Qed.
+Check simd_tokens_roundtrip :
+  forall ms, Forall wt ms ->
+  forall bytes total, encode_matches ms = Some (bytes, total) ->
+  pad_bits total < 3 ->
+  decode_matches_g 3 bytes = Ok (ms, total).
+Print Assumptions simd_tokens_roundtrip.
+
+(* ... and with 3..7 padding bits it ALWAYS fails (padding read as a Literal tag, 5-bit length missing) *)
+Theorem simd_tokens_padding_err :
+  forall ms, Forall wt ms ->
+  forall bytes total, encode_matches ms = Some (bytes, total) ->
+  3 <= pad_bits total ->
+  decode_matches_g 3 bytes = Err.
+Proof. exact simd_tokens_padding_err_proof. Qed.
+Check simd_tokens_padding_err :
+  forall ms, Forall wt ms ->
+  forall bytes total, encode_matches ms = Some (bytes, total) ->
+  3 <= pad_bits total ->
+  decode_matches_g 3 bytes = Err.
+Print Assumptions simd_tokens_padding_err.
+
+(* witness: the single token Far2Long(40,40) the compressor emits for the answer (40,40): 27 bits, decode fails *)
+Theorem simd_decode_padding_refuted :
+  exists ms bytes total, Forall wt ms /\ encode_matches ms = Some (bytes, total) /\
+                         simd_token 40 40 = Some (Far2Long 40 40) /\ ms = [Far2Long 40 40] /\
+                         simd_decode_matches bytes = Err.
+Proof. exact simd_decode_padding_refuted_proof. Qed.
+Check simd_decode_padding_refuted :
+  exists ms bytes total, Forall wt ms /\ encode_matches ms = Some (bytes, total) /\
+                         simd_token 40 40 = Some (Far2Long 40 40) /\ ms = [Far2Long 40 40] /\
+                         simd_decode_matches bytes = Err.
+Print Assumptions simd_decode_padding_refuted.
+
+(* any parse (however found) whose literals/RLE runs are what the decoder substitutes, whose back-references are true matches, that covers the payload and ends with < 3 padding bits decompresses to the payload *)
+Theorem simd_stream_roundtrip :
+  forall x ms z total,
+  Forall wt ms -> encode_matches ms = Some (z, total) ->
+  simd_lits_ok x ms = true -> simd_rles_ok x ms = true -> simd_refs_ok x ms = true ->
+  simd_pad_ok ms = true -> simd_covers x ms = true -> nlen x <= MAX_DECOMPRESSED_SIZE ->
+  simd_decompress z = Ok x.
+Proof. exact simd_stream_roundtrip_proof. Qed.
+Check simd_stream_roundtrip :
+  forall x ms z total,
+  Forall wt ms -> encode_matches ms = Some (z, total) ->
+  simd_lits_ok x ms = true -> simd_rles_ok x ms = true -> simd_refs_ok x ms = true ->
+  simd_pad_ok ms = true -> simd_covers x ms = true -> nlen x <= MAX_DECOMPRESSED_SIZE ->
+  simd_decompress z = Ok x.
+Print Assumptions simd_stream_roundtrip.
+
+(* compress then decompress over EVERY finder answering true matches, every early-termination setting: the payload comes back provided (i) literals = placeholder, (ii) RLE runs = byte 0, (iii) < 3 padding bits, (iv) parse covers the payload, (vi) |x| <= 100 MiB; no width hypothesis is needed (a truncating cast only shortens the match) *)
+Theorem simd_lz77_roundtrip :
+  forall et stop find x ms z,
+  finder_sound x find ->
+  simd_find_matches et stop find x = Ok ms -> simd_compress et stop find x = Ok z ->
+  simd_lits_ok x ms = true -> simd_rles_ok x ms = true -> simd_pad_ok ms = true ->
+  simd_covers x ms = true -> nlen x <= MAX_DECOMPRESSED_SIZE ->
+  simd_decompress z = Ok x.
+Proof. exact simd_lz77_roundtrip_proof. Qed.
+Check simd_lz77_roundtrip :
+  forall et stop find x ms z,
+  finder_sound x find ->
+  simd_find_matches et stop find x = Ok ms -> simd_compress et stop find x = Ok z ->
+  simd_lits_ok x ms = true -> simd_rles_ok x ms = true -> simd_pad_ok ms = true ->
+  simd_covers x ms = true -> nlen x <= MAX_DECOMPRESSED_SIZE ->
+  simd_decompress z = Ok x.
+Print Assumptions simd_lz77_roundtrip.
+
+(* (iv) holds whenever the early-termination test is false on the final token list (enable_early_termination = false, or <= 1000 tokens, or average below threshold) *)
+Theorem simd_covers_unless_early :
+  forall et stop find x ms,
+  finder_sound x find -> nlen x <= MAX_DECOMPRESSED_SIZE ->
+  simd_find_matches et stop find x = Ok ms ->
+  simd_early et stop ms = false -> simd_covers x ms = true.
+Proof. exact simd_covers_proof. Qed.
+Check simd_covers_unless_early :
+  forall et stop find x ms,
+  finder_sound x find -> nlen x <= MAX_DECOMPRESSED_SIZE ->
+  simd_find_matches et stop find x = Ok ms ->
+  simd_early et stop ms = false -> simd_covers x ms = true.
+Print Assumptions simd_covers_unless_early.
+
+(* the fuel of the loop model is never exhausted (every round advances by >= 1) *)
+Theorem simd_find_never_fuel :
+  forall et stop find x, simd_find_matches et stop find x <> Fuel.
+Proof. exact simd_find_never_fuel_proof. Qed.
+Check simd_find_never_fuel :
+  forall et stop find x, simd_find_matches et stop find x <> Fuel.
+Print Assumptions simd_find_never_fuel.
+
+(* the token constructor accepts every answer with 1 <= d <= 65793, 1 <= len <= 65535 (covers the default config: window 32768, max length 258) *)
+Theorem simd_token_defined :
+  forall d len, 1 <= d <= 65793 -> 1 <= len <= 65535 -> exists m, simd_token d len = Some m.
+Proof. exact simd_token_defined_proof. Qed.
+Check simd_token_defined :
+  forall d len, 1 <= d <= 65793 -> 1 <= len <= 65535 -> exists m, simd_token d len = Some m.
+Print Assumptions simd_token_defined.
+
+(* compress returns Ok for every sound finder that never fails and stays within those bounds (the encoder itself never refuses a sound parse of a payload <= 100 MiB) *)
+Theorem simd_compress_defined :
+  forall et stop find x,
+  finder_sound x find -> nlen x <= MAX_DECOMPRESSED_SIZE ->
+  (forall pos, pos < nlen x -> find pos <> AErr) ->
+  (forall pos d len, pos < nlen x -> find pos = AMatch d len -> d <= 65793 /\ len <= 65535) ->
+  exists z, simd_compress et stop find x = Ok z.
+Proof. exact simd_compress_defined_proof. Qed.
+Check simd_compress_defined :
+  forall et stop find x,
+  finder_sound x find -> nlen x <= MAX_DECOMPRESSED_SIZE ->
+  (forall pos, pos < nlen x -> find pos <> AErr) ->
+  (forall pos d len, pos < nlen x -> find pos = AMatch d len -> d <= 65793 /\ len <= 65535) ->
+  exists z, simd_compress et stop find x = Ok z.
+Print Assumptions simd_compress_defined.
+
+(* the output-reversed reconstruction evaluated by run_case_s equals the model of reconstruct_from_matches *)
+Theorem simd_reconstruct_fast_eq :
+  forall lit ms, simd_reconstruct_fast_g lit ms = simd_reconstruct_g lit ms.
+Proof. exact simd_reconstruct_fast_eq_proof. Qed.
+Check simd_reconstruct_fast_eq :
+  forall lit ms, simd_reconstruct_fast_g lit ms = simd_reconstruct_g lit ms.
+Print Assumptions simd_reconstruct_fast_eq.
+
+(* likewise for decompress *)
+Theorem simd_decompress_fast_eq :
+  forall z, simd_decompress_fast z = simd_decompress z.
+Proof. exact simd_decompress_fast_eq_proof. Qed.
+Check simd_decompress_fast_eq :
+  forall z, simd_decompress_fast z = simd_decompress z.
+Print Assumptions simd_decompress_fast_eq.
+
+(* (i) refuted: x = [71], one literal token, stream [0], decompress gives [104] *)
+Theorem simd_lz77_literal_refuted :
+  exists et stop find x z,
+    finder_sound x find /\ simd_compress et stop find x = Ok z /\ simd_decompress z <> Ok x.
+Proof. exact simd_lz77_literal_refuted_proof. Qed.
+Check simd_lz77_literal_refuted :
+  exists et stop find x z,
+    finder_sound x find /\ simd_compress et stop find x = Ok z /\ simd_decompress z <> Ok x.
+Print Assumptions simd_lz77_literal_refuted.
+
+(* (ii) refuted: x = hhh parsed literal + RLE(d=1,len=2): stream [0;2;0], decompress gives h 0 0 although (i),(iii),(iv) hold *)
+Theorem simd_lz77_rle_refuted :
+  exists et stop find x ms z,
+    finder_sound x find /\ simd_find_matches et stop find x = Ok ms /\ simd_compress et stop find x = Ok z /\
+    simd_lits_ok x ms = true /\ simd_pad_ok ms = true /\ simd_covers x ms = true /\
+    simd_decompress z = Ok [104; 0; 0] /\ x = [104; 104; 104].
+Proof. exact simd_lz77_rle_refuted_proof. Qed.
+Check simd_lz77_rle_refuted :
+  exists et stop find x ms z,
+    finder_sound x find /\ simd_find_matches et stop find x = Ok ms /\ simd_compress et stop find x = Ok z /\
+    simd_lits_ok x ms = true /\ simd_pad_ok ms = true /\ simd_covers x ms = true /\
+    simd_decompress z = Ok [104; 0; 0] /\ x = [104; 104; 104].
+Print Assumptions simd_lz77_rle_refuted.
+
+(* (iii) refuted: x = h^80 parsed 40 literals + Far2Long(40,40): 347 bits, decompress = Err although (i),(ii),(iv) hold *)
+Theorem simd_lz77_padding_refuted :
+  exists et stop find x ms z,
+    finder_sound x find /\ simd_find_matches et stop find x = Ok ms /\ simd_compress et stop find x = Ok z /\
+    simd_lits_ok x ms = true /\ simd_rles_ok x ms = true /\ simd_covers x ms = true /\
+    simd_pad_ok ms = false /\ simd_decompress z = Err.
+Proof. exact simd_lz77_padding_refuted_proof. Qed.
+Check simd_lz77_padding_refuted :
+  exists et stop find x ms z,
+    finder_sound x find /\ simd_find_matches et stop find x = Ok ms /\ simd_compress et stop find x = Ok z /\
+    simd_lits_ok x ms = true /\ simd_rles_ok x ms = true /\ simd_covers x ms = true /\
+    simd_pad_ok ms = false /\ simd_decompress z = Err.
+Print Assumptions simd_lz77_padding_refuted.
+
+(* (iv) refuted: with enable_early_termination and the average test true, the loop stops after token 1001: h^1002 comes back as h^1001 *)
+Theorem simd_lz77_early_termination_refuted :
+  exists stop find x ms z,
+    finder_sound x find /\ simd_find_matches true stop find x = Ok ms /\ simd_compress true stop find x = Ok z /\
+    simd_lits_ok x ms = true /\ simd_rles_ok x ms = true /\ simd_pad_ok ms = true /\
+    simd_covers x ms = false /\ simd_decompress z = Ok (repeat 104 1001) /\ nlen x = 1002.
+Proof. exact simd_lz77_early_termination_refuted_proof. Qed.
+Check simd_lz77_early_termination_refuted :
+  exists stop find x ms z,
+    finder_sound x find /\ simd_find_matches true stop find x = Ok ms /\ simd_compress true stop find x = Ok z /\
+    simd_lits_ok x ms = true /\ simd_rles_ok x ms = true /\ simd_pad_ok ms = true /\
+    simd_covers x ms = false /\ simd_decompress z = Ok (repeat 104 1001) /\ nlen x = 1002.
+Print Assumptions simd_lz77_early_termination_refuted.
+
+(* the same with the literal substitution as a parameter: the defect is exactly `lit` (the code: placeholder_lit) and byte_value 0 *)
+Theorem simd_lz77_roundtrip_g :
+  forall lit et stop find x ms z, (forall l, length (lit l) = N.to_nat l) ->
+  finder_sound x find ->
+  simd_find_matches et stop find x = Ok ms -> simd_compress et stop find x = Ok z ->
+  simd_lits_ok_g lit x ms = true -> simd_rles_ok x ms = true -> simd_pad_ok ms = true ->
+  simd_covers x ms = true -> nlen x <= MAX_DECOMPRESSED_SIZE ->
+  simd_decompress_g lit z = Ok x.
+Proof. exact simd_lz77_roundtrip_g_proof. Qed.
+Check simd_lz77_roundtrip_g :
+  forall lit et stop find x ms z, (forall l, length (lit l) = N.to_nat l) ->
+  finder_sound x find ->
+  simd_find_matches et stop find x = Ok ms -> simd_compress et stop find x = Ok z ->
+  simd_lits_ok_g lit x ms = true -> simd_rles_ok x ms = true -> simd_pad_ok ms = true ->
+  simd_covers x ms = true -> nlen x <= MAX_DECOMPRESSED_SIZE ->
+  simd_decompress_g lit z = Ok x.
+Print Assumptions simd_lz77_roundtrip_g.
+
+(* ---------------------------------------------------------------------------------------------
+   PA-Zip compress, legacy path (ModelPaZip.v): candidate strategies, guards, the per-position loop, the block-wise path,
+   over abstract match finders that only return true matches and an abstract selector
+   --------------------------------------------------------------------------------------------- *)
+(* compress_sequential_legacy over an abstract match finder and an abstract selector: for every dictionary, payload and answer
+   sequence (local (distance, length), global (dict_position, length), index of the chosen candidate) whose answers are true matches,
+   the per-position loop ends within |x| iterations and decompress returns x.  guard_local = true is the code (fix 3d9b359: local
+   candidates that do not fit their record are dropped); guard_local = false is the code before it, which needs the extra
+   hypotheses answer_width / answer_len16 (seq_hyp). *)
+Theorem pazip_sequential_roundtrip :
+  forall (guard_local : bool) (dict x : list N) (answers : list answer) (fuel : nat),
+    (length x < fuel)%nat -> seq_hyp guard_local dict fuel x answers ->
+    exists z, compress_sequential (chosen guard_local true) fuel x answers [] [] = CDone (z, z) /\
+              legacy_decompress dict z = Some x.
+Proof. exact pazip_sequential_roundtrip_proof. Qed.
+Check pazip_sequential_roundtrip :
+  forall (guard_local : bool) (dict x : list N) (answers : list answer) (fuel : nat),
+    (length x < fuel)%nat -> seq_hyp guard_local dict fuel x answers ->
+    exists z, compress_sequential (chosen guard_local true) fuel x answers [] [] = CDone (z, z) /\
+              legacy_decompress dict z = Some x.
+Print Assumptions pazip_sequential_roundtrip.
+
+(* PaZipCompressor::compress as a whole: every configuration (multithreading on/off, any threshold), every PARALLEL_THRESHOLD and
+   BLOCK_SIZE >= 1 (the code: 1 MiB / 64 KiB), sequential or block-wise path (answers per block, positions relative to the block), any
+   stale scratch buffer on entry: decompress (compress x) = x *)
+Theorem pazip_compress_roundtrip :
+  forall (guard_local : bool) (dict : list N) (parallel_threshold block_size : N)
+         (enable_mt : bool) (mt_threshold : N) (x : list N) (answers : list (list answer))
+         (fuel : nat) (scratch : list N),
+    1 <= block_size -> (length x < fuel)%nat ->
+    compress_hyp guard_local dict parallel_threshold block_size enable_mt mt_threshold fuel x answers ->
+    exists scratch' z,
+      pz_compress guard_local parallel_threshold block_size enable_mt mt_threshold fuel x answers scratch [] = CDone (scratch', z) /\
+      legacy_decompress dict z = Some x.
+Proof. exact pazip_compress_roundtrip_proof. Qed.
+Check pazip_compress_roundtrip :
+  forall (guard_local : bool) (dict : list N) (parallel_threshold block_size : N)
+         (enable_mt : bool) (mt_threshold : N) (x : list N) (answers : list (list answer))
+         (fuel : nat) (scratch : list N),
+    1 <= block_size -> (length x < fuel)%nat ->
+    compress_hyp guard_local dict parallel_threshold block_size enable_mt mt_threshold fuel x answers ->
+    exists scratch' z,
+      pz_compress guard_local parallel_threshold block_size enable_mt mt_threshold fuel x answers scratch [] = CDone (scratch', z) /\
+      legacy_decompress dict z = Some x.
+Print Assumptions pazip_compress_roundtrip.
+
+(* ... at the constants of the code *)
+Theorem pazip_compress_roundtrip_real :
+  forall (guard_local : bool) (dict : list N) (enable_mt : bool) (mt_threshold : N) (x : list N)
+         (answers : list (list answer)) (fuel : nat) (scratch : list N),
+    (length x < fuel)%nat ->
+    compress_hyp guard_local dict PARALLEL_THRESHOLD BLOCK_SIZE enable_mt mt_threshold fuel x answers ->
+    exists scratch' z,
+      pz_compress guard_local PARALLEL_THRESHOLD BLOCK_SIZE enable_mt mt_threshold fuel x answers scratch []
+      = CDone (scratch', z) /\
+      legacy_decompress dict z = Some x.
+Proof. exact pazip_compress_roundtrip_real_proof. Qed.
+Check pazip_compress_roundtrip_real :
+  forall (guard_local : bool) (dict : list N) (enable_mt : bool) (mt_threshold : N) (x : list N)
+         (answers : list (list answer)) (fuel : nat) (scratch : list N),
+    (length x < fuel)%nat ->
+    compress_hyp guard_local dict PARALLEL_THRESHOLD BLOCK_SIZE enable_mt mt_threshold fuel x answers ->
+    exists scratch' z,
+      pz_compress guard_local PARALLEL_THRESHOLD BLOCK_SIZE enable_mt mt_threshold fuel x answers scratch []
+      = CDone (scratch', z) /\
+      legacy_decompress dict z = Some x.
+Print Assumptions pazip_compress_roundtrip_real.
+
+(* with the guard of fix 3d9b359 the only thing asked of the match finders is truthfulness *)
+Theorem pazip_answer_ok_guarded :
+  forall dict x pos a, answer_ok true dict x pos a <-> answer_true dict x pos a.
+Proof. exact answer_ok_guarded. Qed.
+Check pazip_answer_ok_guarded :
+  forall dict x pos a, answer_ok true dict x pos a <-> answer_true dict x pos a.
+Print Assumptions pazip_answer_ok_guarded.
+
+(* with both guards every candidate strategy fits the record of its type, whatever the match finders answer *)
+Theorem pazip_guarded_candidates_fit :
+  forall loc glo s, In s (candidates true true loc glo) -> fits s = true.
+Proof. exact guarded_candidates_fit_proof. Qed.
+Check pazip_guarded_candidates_fit :
+  forall loc glo s, In s (candidates true true loc glo) -> fits s = true.
+Print Assumptions pazip_guarded_candidates_fit.
+
+(* ... which the candidate generator before fix 3d9b359 did not guarantee (Far2Long of length 65536) *)
+Theorem pazip_unguarded_candidate_unfit :
+  exists loc glo s, In s (candidates false true loc glo) /\ fits s = false.
+Proof. exact unguarded_candidate_unfit_proof. Qed.
+Check pazip_unguarded_candidate_unfit :
+  exists loc glo s, In s (candidates false true loc glo) /\ fits s = false.
+Print Assumptions pazip_unguarded_candidate_unfit.
+
+(* before fix 3d9b359: a true local match of length 65536 at distance 1 is written as a Far2Long record with length 0 *)
+Theorem pazip_far2long_len65536_refuted :
+  exists dict x answers fuel, (length x < fuel)%nat /\ seq_hyp_nolen16 dict fuel x answers /\
+    exists z, compress_sequential (chosen false true) fuel x answers [] [] = CDone (z, z) /\ legacy_decompress dict z <> Some x.
+Proof. exact pazip_far2long_len65536_refuted_proof. Qed.
+Check pazip_far2long_len65536_refuted :
+  exists dict x answers fuel, (length x < fuel)%nat /\ seq_hyp_nolen16 dict fuel x answers /\
+    exists z, compress_sequential (chosen false true) fuel x answers [] [] = CDone (z, z) /\ legacy_decompress dict z <> Some x.
+Print Assumptions pazip_far2long_len65536_refuted.
+
+(* before fix b7089e7: the block-wise path without the per-block clear of the scratch buffer *)
+Theorem pazip_blockwise_old_refuted :
+  exists dict parallel_threshold block_size enable_mt mt_threshold x answers fuel scratch,
+    1 <= block_size /\ (length x < fuel)%nat /\
+    compress_hyp false dict parallel_threshold block_size enable_mt mt_threshold fuel x answers /\
+    exists z, cres_output (pz_compress_old false parallel_threshold block_size enable_mt mt_threshold fuel x answers scratch []) = Some z /\
+              legacy_decompress dict z <> Some x.
+Proof. exact pazip_blockwise_old_refuted_proof. Qed.
+Check pazip_blockwise_old_refuted :
+  exists dict parallel_threshold block_size enable_mt mt_threshold x answers fuel scratch,
+    1 <= block_size /\ (length x < fuel)%nat /\
+    compress_hyp false dict parallel_threshold block_size enable_mt mt_threshold fuel x answers /\
+    exists z, cres_output (pz_compress_old false parallel_threshold block_size enable_mt mt_threshold fuel x answers scratch []) = Some z /\
+              legacy_decompress dict z <> Some x.
+Print Assumptions pazip_blockwise_old_refuted.
+
+(* before fix a57c307: without the u16 guard a true global match at dictionary offset 65536 is written with offset 0 *)
+Theorem pazip_global_guard_needed :
+  exists dict x answers fuel, (length x < fuel)%nat /\ seq_hyp_g false false dict fuel x answers /\
+    exists z, compress_sequential (chosen false false) fuel x answers [] [] = CDone (z, z) /\ legacy_decompress dict z <> Some x.
+Proof. exact pazip_global_guard_needed_proof. Qed.
+Check pazip_global_guard_needed :
+  exists dict x answers fuel, (length x < fuel)%nat /\ seq_hyp_g false false dict fuel x answers /\
+    exists z, compress_sequential (chosen false false) fuel x answers [] [] = CDone (z, z) /\ legacy_decompress dict z <> Some x.
+Print Assumptions pazip_global_guard_needed.
+
+(* the compressor run on answers equals the replay of the strategies it selected (what the harness replays, op 31 / 33) *)
+Theorem pazip_compress_as_replay :
+  forall (A : Type) (pick : A -> strategy) clr pt bs mt thr fuel x (itemss : list (list A)) scratch out,
+    pz_compress_g pick clr pt bs mt thr fuel x itemss scratch out
+    = pz_compress_g (fun s => s) clr pt bs mt thr fuel x (map (map pick) itemss) scratch out.
+Proof. exact pz_compress_as_replay_proof. Qed.
+Check pazip_compress_as_replay :
+  forall (A : Type) (pick : A -> strategy) clr pt bs mt thr fuel x (itemss : list (list A)) scratch out,
+    pz_compress_g pick clr pt bs mt thr fuel x itemss scratch out
+    = pz_compress_g (fun s => s) clr pt bs mt thr fuel x (map (map pick) itemss) scratch out.
+Print Assumptions pazip_compress_as_replay.
+
+(* choose_best_compression_type on a true match always takes the reference path (get_encoding_meta) *)
+Theorem pazip_choose_type_true_match :
+  forall d len, 1 <= d -> 1 <= len -> choose_type d len = Some (encoding_meta_type d len).
+Proof. exact choose_type_match. Qed.
+Check pazip_choose_type_true_match :
+  forall d len, 1 <= d -> 1 <= len -> choose_type d len = Some (encoding_meta_type d len).
+Print Assumptions pazip_choose_type_true_match.
+
 (* non-vacuity of the hypotheses above *)
 Example legacy_stream_inhabited :
   let x := [7; 7; 7; 7; 9; 7; 9; 7; 9; 116; 104; 101] in
@@ -189,3 +822,43 @@ Proof. split; [|cbn; lia]. constructor; [|constructor]. intros x z H. cbn in H. 
 Example winv_inhabited : exists w, write_bits writer_new 5 3 = Some w /\ winv w /\ wlen w = 3.
 Proof. destruct writer_new_inv as (I & _ & L). destruct (write_bits_spec writer_new 5 3 I ltac:(lia)) as (w & E & I' & _ & L').
   exists w. split; [exact E|]. split; [exact I'|]. rewrite L', L. reflexivity. Qed.
+Example rans_compressor_roundtrip_inhabited :
+  let train := [104; 101; 108; 108; 111; 32; 119; 111; 114; 108; 100] in
+  train <> [] /\ nlen train < W32 /\ Forall (fun b => b < 256) [108; 111; 108] /\ (forall s, In s [108; 111; 108] -> In s train).
+Proof. exact rans_compressor_inhabited. Qed.
+Example huffman_compressor_roundtrip_inhabited :
+  ProofsHeap.heap_run (map H.Leaf [97; 98; 99]) (H.Node (H.Leaf 99) (H.Node (H.Leaf 97) (H.Leaf 98))) /\ NoDup [97; 98; 99].
+Proof.
+  split.
+  - eapply ProofsHeap.heap_merge with (a := H.Leaf 97) (b := H.Leaf 98) (l' := [H.Leaf 99]); [reflexivity|].
+    eapply ProofsHeap.heap_merge with (a := H.Leaf 99) (b := H.Node (H.Leaf 97) (H.Leaf 98)) (l' := []); [apply perm_swap|].
+    apply ProofsHeap.heap_done.
+  - repeat constructor; cbn; intuition; discriminate.
+Qed.
+Example huffman_tree_serialize_inhabited :
+  let tb := [(99, [false]); (97, [true; false]); (98, [true; true])] in
+  NoDup (map fst tb) /\ H.prefix_free tb = true /\ short_codes tb.
+Proof. cbn zeta. split; [repeat constructor; cbn; intuition; discriminate|]. split; [reflexivity|]. repeat constructor; cbn; lia. Qed.
+Example realtime_block_roundtrip_inhabited :
+  (forall a, codec_ok (two_codecs a)) /\
+  rt_compress_with_deadline two_codecs (rt_set_mode (rt_new 0 true) 2) (repeat 7 (N.to_nat 70)) on_time = Some (1 :: 42 :: repeat 7 (N.to_nat 70)) /\
+  rt_compress_with_deadline two_codecs (rt_set_mode (rt_new 0 true) 2) [7; 7] on_time = Some [0; 7; 7] /\
+  rt_compress_with_deadline two_codecs (rt_new 3 true) [7; 7] (mkClock false false true) = Some [0; 7; 7] /\
+  rt_compress_with_deadline two_codecs (rt_new 3 false) [7; 7] (mkClock true false false) = None.
+Proof. split; [exact two_codecs_ok|]. repeat split; reflexivity. Qed.
+Example adaptive_roundtrip_inhabited :
+  exists st, ad_run two_codecs (fun a => a <? 50) true false (mkAdCfg 1 1 true 16) ad_new
+               [OpSet 2; OpCompress [1] 0 true; OpSet 50; OpTrain; OpCompress [2] 3 false] = Some st /\ ad_alg st = 2 /\ ad_done st = 2.
+Proof. eexists. split; [reflexivity|]. split; reflexivity. Qed.
+Example simd_lz77_roundtrip_inhabited_ex :
+  finder_sound ProofsSimd.ex_x ex_find /\ simd_find_matches true no_stop ex_find ProofsSimd.ex_x = Ok ex_ms /\
+  simd_lits_ok ProofsSimd.ex_x ex_ms = true /\ simd_rles_ok ProofsSimd.ex_x ex_ms = true /\ simd_pad_ok ex_ms = true /\
+  simd_covers ProofsSimd.ex_x ex_ms = true.
+Proof. destruct simd_lz77_roundtrip_inhabited as (H1 & H2 & _ & H4 & H5 & _ & H7 & H8 & _).
+  split; [exact H1|]. split; [exact H2|]. split; [exact H4|]. split; [exact H5|]. split; [exact H7|exact H8]. Qed.
+Example pazip_sequential_roundtrip_inhabited :
+  forall gl : bool, seq_hyp gl ex_dict 19 ProofsPaZipEx.ex_x ex_answers.
+Proof. intros gl. destruct (pazip_sequential_example gl) as [H _]. exact H. Qed.
+Example pazip_compress_roundtrip_inhabited :
+  forall gl : bool, blockwise 8 true 1 ex_bx = true /\ compress_hyp gl [] 8 4 true 1 9 ex_bx ex_banswers.
+Proof. intros gl. destruct (pazip_compress_example gl) as (H1 & H2 & _). split; assumption. Qed.
